@@ -50,6 +50,14 @@ def _units(value, ndim):
     raise ModelInvalid("unsupported type")
 
 
+def _is_int(v):
+    return isinstance(v, numbers.Integral) and not isinstance(v, (bool, np.bool_))
+
+
+def _is_real(v):
+    return isinstance(v, numbers.Real) and not isinstance(v, (bool, np.bool_))
+
+
 def _axes(axes, ndim):
     if axes is None:
         return list(range(ndim))
@@ -122,6 +130,8 @@ class DModel:
             if len(output_shape) != nd:
                 raise ModelInvalid("output_shape length")
             pairs = []
+            if not all(_is_int(m) for m in output_shape):
+                raise ModelInvalid("output_shape entry is not an integer")
             for n, m in zip(self.shape, output_shape):
                 d = int(m) - n
                 pairs.append((d // 2, d - d // 2) if d > 0 else (0, 0))  # symmetric: floor before, ceil after
@@ -134,6 +144,9 @@ class DModel:
             else:
                 if len(pw) != nd:
                     raise ModelInvalid("pad_width length")
+                for e in pw:
+                    if not isinstance(e, (tuple, list)) or len(e) != 2 or not all(_is_int(x) and x >= 0 for x in e):
+                        raise ModelInvalid("pad_width entry is not a pair of non-negative integers")
                 pairs = [(int(b), int(a)) for b, a in pw]
         new_shape = tuple(n + b + a for n, (b, a) in zip(self.shape, pairs))
         out = np.zeros(new_shape, dtype=self.arr.dtype)
@@ -156,6 +169,9 @@ class DModel:
             if len(cw) != len(ax):
                 raise ModelInvalid("crop_widths length")
         sl = [slice(None)] * nd
+        for e in cw:
+            if not isinstance(e, (tuple, list)) or len(e) != 2 or not all(_is_int(x) for x in e):
+                raise ModelInvalid("crop_widths entry is not a (min, max) pair of integers")
         for a, (lo, hi) in zip(ax, cw):
             sl[a] = slice(lo, hi if hi != 0 else None)  # (min, max) per axis; max 0 = up to the end
         return self._with(self.arr[tuple(sl)].copy())
@@ -166,6 +182,8 @@ class DModel:
         if isinstance(factors, numbers.Integral):
             fs = [int(factors)] * len(ax)
         else:
+            if not isinstance(factors, (list, tuple)) or not all(_is_int(f) for f in factors):
+                raise ModelInvalid("bin factor is not an integer")
             fs = [int(f) for f in factors]
             if len(fs) != len(ax):
                 raise ModelInvalid("factors length")
@@ -199,11 +217,15 @@ class DModel:
         if (out_shape is None) == (factors is None):
             raise ModelInvalid("exactly one of out_shape / factors")
         if factors is not None:
+            if not isinstance(factors, numbers.Real) and not all(_is_real(f) for f in factors):
+                raise ModelInvalid("resample factor is not a number")
             fs = [float(factors)] * len(ax) if isinstance(factors, numbers.Real) else [float(f) for f in factors]
             if len(fs) != len(ax):
                 raise ModelInvalid("factors length")
             lens = [max(1, int(round(self.shape[a] * f))) for a, f in zip(ax, fs)]
         else:
+            if not all(_is_int(m) for m in out_shape):
+                raise ModelInvalid("out_shape entry is not an integer")
             lens = [int(m) for m in out_shape]
             if len(lens) != len(ax) or any(m < 1 for m in lens):
                 raise ModelInvalid("out_shape")
